@@ -5,26 +5,26 @@ NOTES = ("All checks are generated-input search against explicit oracles (proper
 NOT_APPLICABLE = {}
 CHECKS = {
     "C01": {
-        "text": "Thousands of generated (schema, frame) pairs per run (data first, schema derived with check arguments on/next to the observed boundaries, then repaired to conforming and re-tightened by one mutation) are validated eagerly and lazily and the accept/reject verdict is compared in both directions with an independent pure-Python reference model of the declarative vocabulary; on accept the returned object must equal the input. Two further families: string checks whose arguments are enumerated from small grids (every None/0/1 str_length bound, empty prefixes, anchored patterns), and validate -> edit the returned object in place -> validate again, where the second verdict must equal the reference verdict on the edited table. Exploration: no absence claim beyond the cases generated. Round 3: a nested_unique family (several joint-uniqueness column sets, some naming only absent optional columns) and user-written row-wise dataframe checks made by one factory.",
+        "text": "Thousands of generated (schema, frame) pairs per run (data first, schema derived with check arguments on/next to the observed boundaries, then repaired to conforming and re-tightened by one mutation) are validated eagerly and lazily and the accept/reject verdict is compared in both directions with an independent pure-Python reference model of the declarative vocabulary; on accept the returned object must equal the input. Two further families: string checks whose arguments are enumerated from small grids (every None/0/1 str_length bound, empty prefixes, anchored patterns), and validate -> edit the returned object in place -> validate again, where the second verdict must equal the reference verdict on the edited table. Exploration: no absence claim beyond the cases generated. Round 3: a nested_unique family (several joint-uniqueness column sets, some naming only absent optional columns) and user-written row-wise dataframe checks made by one factory. Round 4: an int_labels family (integer column labels incl. the falsy label 0, regex columns over digits).",
         "design_ref": "DESIGN.md §2 C01, §1.3-1.4",
         "note": "Trusts harness/refmodel.py as the reading of the docs (conventions listed in DESIGN §6); regions where the docs define no semantics are skipped and counted in evidence.",
         "technique": "Hypothesis generators + independent reference model (differential, both directions)",
     },
     "C02": {
-        "text": "Generated multi-violation (schema, frame) pairs: lazy raises iff eager raises, the eager error is among the lazy errors, error_counts equal the per-reason number of collected errors, and the lazy failure_cases table equals the reference model's offending (column, row label, value) multiset plus one scalar entry per frame-level violation; the same oracle on polars DataFrame / LazyFrame (full depth), and lazy-iff-eager + eager-error-among-lazy-errors under SCHEMA_ONLY and DATA_ONLY. Exploration level. Round 3: a lazy_coerce family - metamorphic: coercing a coercible Index by hand before validating does not change the lazy report (errors, cells, row labels, error_counts) of a frame that also has a failing column coercion and row-level violations.",
+        "text": "Generated multi-violation (schema, frame) pairs: lazy raises iff eager raises, the eager error is among the lazy errors, error_counts equal the per-reason number of collected errors, and the lazy failure_cases table equals the reference model's offending (column, row label, value) multiset plus one scalar entry per frame-level violation; the same oracle on polars DataFrame / LazyFrame (full depth), and lazy-iff-eager + eager-error-among-lazy-errors under SCHEMA_ONLY and DATA_ONLY. Exploration level. Round 3: a lazy_coerce family - metamorphic: coercing a coercible Index by hand before validating does not change the lazy report (errors, cells, row labels, error_counts) of a frame that also has a failing column coercion and row-level violations. Round 4: the report oracle on frames with integer column labels (int_labels family).",
         "design_ref": "DESIGN.md §2 C02",
         "note": "Trusts the reference model and the documented layout of SchemaErrors.failure_cases; 6 recorded known findings are excluded by narrow predicates; report exactness is not scored for duplicated labels / overlapping regex columns / checks run on wrong-dtype data.",
         "technique": "Hypothesis generators + reference model, lazy-vs-eager differential",
     },
 
     "C03": {
-        "text": "Conforming generated pairs are de-conformed in ways the parsing options repair (re-encoded cells + coerce at column/schema/index level, null + default, removed column + add_missing_columns, extra columns + strict='filter', tightened row constraint + drop_invalid_rows, a user parser - pure or writing in place, column- or frame-level - and cells it repairs), 1-3 at once; whenever validate returns, the returned object must pass the same spec with every parsing option off (checked with pandera and, independently, with the reference model on the object read back) and re-validation must return it unchanged. Exploration.",
+        "text": "Conforming generated pairs are de-conformed in ways the parsing options repair (re-encoded cells + coerce at column/schema/index level, null + default, removed column + add_missing_columns, extra columns + strict='filter', tightened row constraint + drop_invalid_rows, a user parser - pure or writing in place, column- or frame-level - and cells it repairs), 1-3 at once; whenever validate returns, the returned object must pass the same spec with every parsing option off (checked with pandera and, independently, with the reference model on the object read back) and re-validation must return it unchanged. Exploration. Round 4: a standalone pandas Column as entry point; polars float columns arriving as text with 'NaN' spelled out, coerced and default-filled.",
         "design_ref": "DESIGN.md §2 C03",
         "note": "strip(S) is rebuilt from the JSON spec; strict='filter' is stripped to strict=True (only declared columns may remain); two drop_invalid_rows known findings excluded by narrow predicates. pandas family and a polars family (C08's shared generator + parsing options + regex-declared columns, DataFrame and LazyFrame at full depth); seven drop_invalid_rows / add_missing_columns known findings excluded by narrow predicates.",
         "technique": "Hypothesis generators + fixpoint/round-trip oracle + reference model",
     },
     "C04": {
-        "text": "The same parser-option generator drives DataFrameSchema, SeriesSchema(+Index), standalone Column, Index and MultiIndex component validation (pass, eager fail, lazy fail, inplace on/off) on pandas and DataFrameSchema/Column/DataFrameModel on polars DataFrame and LazyFrame; a full value snapshot of the caller's object before the call must equal the snapshot after it and the returned container kind must equal the input kind. Exploration. Round 3: pairs whose Index(coerce=True) really converts the labels together with row-level violations (mostly lazy), and parser cases with additional unrepaired violations.",
+        "text": "The same parser-option generator drives DataFrameSchema, SeriesSchema(+Index), standalone Column, Index and MultiIndex component validation (pass, eager fail, lazy fail, inplace on/off) on pandas and DataFrameSchema/Column/DataFrameModel on polars DataFrame and LazyFrame; a full value snapshot of the caller's object before the call must equal the snapshot after it and the returned container kind must equal the input kind. Exploration. Round 3: pairs whose Index(coerce=True) really converts the labels together with row-level violations (mostly lazy), and parser cases with additional unrepaired violations. Round 4: every case optionally under config_context(validation_depth=SCHEMA_ONLY / DATA_ONLY / SCHEMA_AND_DATA).",
         "design_ref": "DESIGN.md §2 C04",
         "note": "Trusts harness/fp.py:snapshot (cell-wise with NaN==NaN, dtypes, labels, index, name, attrs).",
         "technique": "Hypothesis generators + before/after snapshot invariant",
@@ -36,14 +36,14 @@ CHECKS = {
         "technique": "Hypothesis-generated JSON histories interpreted stepwise (stateful invariant checking) + enumerated subprocess matrix",
     },
     "C06": {
-        "text": "inputs: generated schemas x data x options (lazy, head/tail/sample, drop_invalid_rows, every parsing option, standalone Column entry, non-dataframe arguments; a second family on polars DataFrame / LazyFrame at both depths) must end in ok / SchemaError (eager) / SchemaErrors (lazy) / a documented usage error, with schema fingerprint, config and caller data unchanged. faults: every user callback (vectorised/element-wise/groupby check fns at column, index and frame level, parser fns, a custom registered dtype's check/coerce) is a counting wrapper; for EVERY invocation index k of the clean run, eager and lazy, an exception (harness-private, KeyError, ZeroDivisionError, AttributeError, or a user-built pandera SchemaError without reason code) is injected at k and the outcome must stay in the documented channel (a raising check must be reported as CHECK_ERROR) and state must equal the state before. Fault enumeration is exhaustive per generated schema; schemas are sampled.",
+        "text": "inputs: generated schemas x data x options (lazy, head/tail/sample, drop_invalid_rows, every parsing option, standalone Column entry, non-dataframe arguments; a second family on polars DataFrame / LazyFrame at both depths) must end in ok / SchemaError (eager) / SchemaErrors (lazy) / a documented usage error, with schema fingerprint, config and caller data unchanged. faults: every user callback (vectorised/element-wise/groupby check fns at column, index and frame level, parser fns, a custom registered dtype's check/coerce) is a counting wrapper; for EVERY invocation index k of the clean run, eager and lazy, an exception (harness-private, KeyError, ZeroDivisionError, AttributeError, or a user-built pandera SchemaError without reason code) is injected at k and the outcome must stay in the documented channel (a raising check must be reported as CHECK_ERROR) and state must equal the state before. Fault enumeration is exhaustive per generated schema; schemas are sampled. Round 4: standalone regex Column entries on unrepaired pairs; defaults on declared-but-absent columns.",
         "design_ref": "DESIGN.md §2 C06",
         "note": "For parser/groupby/dtype callbacks the injected exception itself (or a later user-callback exception caused by it) propagating is accepted; seven recorded known findings (drop_invalid_rows family, add_missing coercion, MultiIndex coerce, duplicated labels, user-built SchemaError from parsers) are excluded by (exception type, function, trigger) predicates.",
         "technique": "Hypothesis generators + every-k fault injection through user callbacks, state-before == state-after invariant",
         "category": "fault_enumeration",
     },
     "C07": {
-        "text": "For 2-3 concurrent pandas/polars validate calls (shared or distinct schemas, cold DataFrameModel, user config_context) every call must return or raise exactly what it does alone, and config plus every schema fingerprint must be unchanged afterwards, under every single-preemption interleaving of each listed workload (exhaustive for that layer at pandera call/return granularity), a two-preemption grid, Hypothesis-generated multi-segment schedules, an overlap family (two-preemption schedules that park both threads inside the same pandera function, at call/return granularity and at source-line granularity for short functions), and a cold-process family (one freshly started interpreter per schedule: the scheduled calls are the first validations of the process, so backend registration and lazy imports are inside the explored window). The harness owns the schedule (sys.settrace parked threads). Round 3: a MultiIndex component as shared entry point (repeated level names in the data), a model whose compilation raises next to a cold healthy model, and two state invariants: no pandera module/class-level lock is held once a call has finished (a stalled thread blocked on such a lock is a deadlock violation decided from the lock state), and the interpreter-wide warnings filters are as before.",
+        "text": "For 2-3 concurrent pandas/polars validate calls (shared or distinct schemas, cold DataFrameModel, user config_context) every call must return or raise exactly what it does alone, and config plus every schema fingerprint must be unchanged afterwards, under every single-preemption interleaving of each listed workload (exhaustive for that layer at pandera call/return granularity), a two-preemption grid, Hypothesis-generated multi-segment schedules, an overlap family (two-preemption schedules that park both threads inside the same pandera function, at call/return granularity and at source-line granularity for short functions), and a cold-process family (one freshly started interpreter per schedule: the scheduled calls are the first validations of the process, so backend registration and lazy imports are inside the explored window). The harness owns the schedule (sys.settrace parked threads). Round 3: a MultiIndex component as shared entry point (repeated level names in the data), a model whose compilation raises next to a cold healthy model, and two state invariants: no pandera module/class-level lock is held once a call has finished (a stalled thread blocked on such a lock is a deadlock violation decided from the lock state), and the interpreter-wide warnings filters are as before. Round 4: a SeriesSchema with a coercing Index shared by two calls; pandas and polars validations dispatching the same built-in checks, each mixed-backend schedule preceded by a validation of the other backend (defined start state of process-wide memo tables).",
         "design_ref": "DESIGN.md §2 C07",
         "note": "One thread runs at a time; the cold family covers single preemptions of two fixed workloads; preemption only at pandera call boundaries (not bytecodes); pandas/polars internals and the polars Rust pool are sequentialised; GIL builds only. Watchdog-stopped executions are inconclusive. One recorded known finding (module-global config context).",
         "technique": "deterministic schedule enumeration + Hypothesis schedules, differential against the solo run",
@@ -61,19 +61,19 @@ CHECKS = {
         "technique": "exhaustive registry/pair enumeration + Hypothesis parameter and string generation against native-library introspection oracles",
     },
     "C10": {
-        "text": "For 40 pandas-engine and 31 polars-engine dtype instances Hypothesis draws Series/Index/column containers mixing exactly convertible, unconvertible, null and lossy elements. On success the result must keep length, labels and name, pass the dtype's own check, equal the inputs where conversion is exact, keep nulls and be idempotent; on failure the error must be a ParserError/DATATYPE_COERCION whose failure cases are exactly the unconvertible elements. Exploration. Round 3: DateTime(to_datetime_kwargs={'format': ...}) as a target with its own classifier (after plain datetime targets were resolved in the same process); polars schema route under validation_depth DATA_ONLY / SCHEMA_AND_DATA.",
+        "text": "For 40 pandas-engine and 31 polars-engine dtype instances Hypothesis draws Series/Index/column containers mixing exactly convertible, unconvertible, null and lossy elements. On success the result must keep length, labels and name, pass the dtype's own check, equal the inputs where conversion is exact, keep nulls and be idempotent; on failure the error must be a ParserError/DATATYPE_COERCION whose failure cases are exactly the unconvertible elements. Exploration. Round 3: DateTime(to_datetime_kwargs={'format': ...}) as a target with its own classifier (after plain datetime targets were resolved in the same process); polars schema route under validation_depth DATA_ONLY / SCHEMA_AND_DATA. Round 4: a regex Column coercing twin columns (container regex_column); categorical input with an unused category for categorical targets.",
         "design_ref": "DESIGN.md §2 C10",
         "note": "Trusts the harness's own element classifier (exact/fail only for documented numpy/pandas/polars conversions) and coerce_value / singleton strict casts for lossy elements; null kinds compared as one value. Eight recorded known findings.",
         "technique": "Hypothesis generators per dtype, own element classifier as oracle, idempotence round trip",
     },
     "C11": {
-        "text": "Conforming generated pairs re-tightened by 1-3 row-level constraints (nullable, unique with each report_duplicates, column/index/row-wise frame checks, joint uniqueness) with drop_invalid_rows=True on DataFrameSchema, SeriesSchema and standalone Column over unique indexes of every kind (pandas) and on polars DataFrame / LazyFrame: the result must hold exactly the rows (by position) on which the reference model finds no row-level violation, in order, with unchanged values; a non row-attributable violation must still raise. Exploration.",
+        "text": "Conforming generated pairs re-tightened by 1-3 row-level constraints (nullable, unique with each report_duplicates, column/index/row-wise frame checks, joint uniqueness) with drop_invalid_rows=True on DataFrameSchema, SeriesSchema and standalone Column over unique indexes of every kind (pandas) and on polars DataFrame / LazyFrame: the result must hold exactly the rows (by position) on which the reference model finds no row-level violation, in order, with unchanged values; a non row-attributable violation must still raise. Exploration. Round 4: row labels of other kinds (tz-aware/naive datetimes, timedeltas, categorical, float, str, date objects, periods) and no-op parsers on the checked columns.",
         "design_ref": "DESIGN.md §2 C11",
         "note": "Unique index only (documented restriction); aggregate checks (unique_values_eq) skipped; four recorded known findings (index positions, non-tabular failure cases, null duplicates, SeriesSchema index).",
         "technique": "Hypothesis generators + reference model (set of bad rows)",
     },
     "C12": {
-        "text": "Schemas built from every serialisable part are written to YAML, JSON and a Python script and read back: the result must be structurally identical to a fresh build (object-graph fingerprint and pandera ==), re-serialise to the same text and give identical lazy verdicts on probe frames. One minimal schema per slot value combination is enumerated completely; the rest is Hypothesis-generated.",
+        "text": "Schemas built from every serialisable part are written to YAML, JSON and a Python script and read back: the result must be structurally identical to a fresh build (object-graph fingerprint and pandera ==), re-serialise to the same text and give identical lazy verdicts on probe frames. One minimal schema per slot value combination is enumerated completely; the rest is Hypothesis-generated. Round 4: temporal check values on dtype-less columns and dataframe-level checks, temporal schema-wide dtypes.",
         "design_ref": "DESIGN.md §2 C12",
         "note": "Reference = a fresh schema built from the same spec by pandera's constructors; attributes without a slot in the format are outside the claim; four recorded known findings (duplicate check names, datetime statistics, inf).",
         "technique": "enumeration of slots + Hypothesis round-trip / fixpoint / differential-verdict",
@@ -97,13 +97,13 @@ CHECKS = {
         "technique": "Hypothesis program generation + constructor-built expected schema (differential) + paired frame operation (metamorphic)",
     },
     "C16": {
-        "text": "Generated model class hierarchies (chains, siblings, mixins, diamonds; field/Field/annotation/method overrides; aliases, regex, Optional, Config options, @check/@dataframe_check/@parser, compile order) are exec'd; every class's to_schema() is compared structurally with an object-API schema computed from the spec by ordinary class semantics, again after all relatives are compiled; validate outcomes, outputs and lazy failure cases are compared on three tables, on pandas and polars.",
+        "text": "Generated model class hierarchies (chains, siblings, mixins, diamonds; field/Field/annotation/method overrides; aliases, regex, Optional, Config options, @check/@dataframe_check/@parser, compile order) are exec'd; every class's to_schema() is compared structurally with an object-API schema computed from the spec by ordinary class semantics, again after all relatives are compiled; validate outcomes, outputs and lazy failure cases are compared on three tables, on pandas and polars. Round 4: child Config classes setting an inherited option back to None.",
         "design_ref": "DESIGN.md §2 C16",
         "note": "Differential oracle trusting the object-API constructors and validate; check order within a component not compared. All seven defects found were repaired in /repo (see known_findings.json 'fixed').",
         "technique": "Hypothesis program generation, differential against the object API with a spec-side class-semantics resolver",
     },
     "C17": {
-        "text": "For generated function signatures (plain/method/classmethod/staticmethod, sync/async, defaults, *args, keyword-only, **kwargs), decorators (check_input/check_output/check_io/check_types with every getter form), call shapes and validation options, the decorated function is run against an independent reference (inspect.signature.bind + schema.validate per designated slot + the undecorated function): whether the body ran, what it saw at every parameter, the result or exception class, the caller's objects afterwards; a compact polars twin (DataFrame / LazyFrame, pandera.typing.polars annotations). Round 3: one decorator object applied to two callables of different kinds and called in turn (shared family); a sample_state family (only sample= and random_state=, longer frames with one bad row) with numpy's global generator moved to a case-derived state during the decorated call.",
+        "text": "For generated function signatures (plain/method/classmethod/staticmethod, sync/async, defaults, *args, keyword-only, **kwargs), decorators (check_input/check_output/check_io/check_types with every getter form), call shapes and validation options, the decorated function is run against an independent reference (inspect.signature.bind + schema.validate per designated slot + the undecorated function): whether the body ran, what it saw at every parameter, the result or exception class, the caller's objects afterwards; a compact polars twin (DataFrame / LazyFrame, pandera.typing.polars annotations). Round 3: one decorator object applied to two callables of different kinds and called in turn (shared family); a sample_state family (only sample= and random_state=, longer frames with one bad row) with numpy's global generator moved to a case-derived state during the decorated call. Round 4: a varargs family (integer getter into *frames) and UserDict / deque output containers.",
         "design_ref": "DESIGN.md §2 C17",
         "note": "Trusts schema.validate for the data verdict and inspect.signature.bind for binding; one recorded known finding (Union + lazy).",
         "technique": "Hypothesis-generated programs (source exec'd) + differential reference binding oracle",
@@ -121,7 +121,7 @@ CHECKS = {
         "technique": "Hypothesis generators + reference model on independently computed row selection (metamorphic)",
     },
     "C18": {
-        "text": "Exhaustive enumeration of all 108 config_context option tuples at nesting depth 1-2 with an exception at every level and of all 108 documented env settings; Hypothesis for depth 3-4 nestings, entry styles, disabled-validation identity over every entry point and (S,D) depth decomposition against the reference model. Exploration: absence is not established beyond the enumerated finite parts. Round 3: env_e2e also validates inside config_context(validation_depth=D) on top of every environment setting (context wins over environment, state restored).",
+        "text": "Exhaustive enumeration of all 108 config_context option tuples at nesting depth 1-2 with an exception at every level and of all 108 documented env settings; Hypothesis for depth 3-4 nestings, entry styles, disabled-validation identity over every entry point and (S,D) depth decomposition against the reference model. Exploration: absence is not established beyond the enumerated finite parts. Round 3: env_e2e also validates inside config_context(validation_depth=D) on top of every environment setting (context wins over environment, state restored). Round 4: the polars default-depth family also through standalone Column and DataFrameModel entries.",
         "design_ref": "DESIGN.md §2 C18",
         "note": "Trusts dataclasses.asdict of pandera.config._CONTEXT_CONFIG/CONFIG as the observable config state; documented env semantics from docs/source/configuration.md.",
         "technique": "exhaustive enumeration + Hypothesis, model-stack oracle and reference-model depth decomposition",
